@@ -62,6 +62,7 @@ type Ctx struct {
 	fns     map[ast.Node]*Fn
 	nfuncs  map[*Fn]bool
 	GOOS    string
+	loaded  bool
 }
 
 type propDef struct {
@@ -183,6 +184,7 @@ func (c *Ctx) load(goos string, overlay map[string][]byte, patterns ...string) {
 		c.All = append(c.All, p)
 	}
 	sort.Slice(c.All, func(i, j int) bool { return c.All[i].PkgPath < c.All[j].PkgPath })
+	c.loaded = true
 }
 
 type evidence struct {
